@@ -88,6 +88,8 @@ class Net:
         self.retry_sides = cfg.get("retry_sides", "s")
         self.shuffle_select = cfg.get("shuffle_select", False)
         self.rst_discards_rx = cfg.get("rst_discards_rx", True)
+        # connections of a unix-domain style listener: accept() and the server side's getpeername() report '' (no host, no port)
+        self.unix_addr = bool(cfg.get("unix_addr", False))
         self.silent_first_epipe = cfg.get("silent_first_epipe", False)
         self.on_connect = None       # callback(conn_idx, client_sock, server_sock)
         self.messages = []           # recorded by MessagePipes
@@ -267,6 +269,8 @@ class SimSocket:
         if self.peeraddr is None or self.reset:
             # (after the peer reset the connection the socket is no longer connected)
             raise OSError(errno.ENOTCONN, "Transport endpoint is not connected")
+        if self._sfd and self.net.unix_addr:
+            return ""
         return self.peeraddr
 
     def readable(self):
@@ -335,7 +339,7 @@ class SimSocket:
             c._fd = self.net.server_fd()
             c._sfd = True
         self.s.sev("accept", c.conn)
-        return c, c.peeraddr
+        return c, ("" if self.net.unix_addr else c.peeraddr)
 
     def recv(self, n, flags=0):
         if self.closed:
